@@ -11,7 +11,7 @@ end cloudconst
 
 namespace Skel
 def Bridge_Close : List String := ["sourceForwarder.Close", "targetForwarder.Close", "sourceTunnelConn.Close", "targetTunnelConn.Close", "sourceConn.Close", "targetConn.Close", "sourceStream.Close", "targetStream.Close", "ManagerBase.Close"]
-def Bridge_SetSourceConnection : List String := ["tunnelConnMu.Lock", "CreateDataForwarder", "sourceConnMu.Lock", "sourceConnMu.Unlock", "tunnelConnMu.Unlock"]
+def Bridge_SetSourceConnection : List String := ["tunnelConnMu.Lock", "tunnelConnMu.Unlock", "CreateDataForwarder", "sourceConnMu.Lock", "sourceConnMu.Unlock", "tunnelConnMu.Unlock"]
 def Bridge_Start : List String := ["tunnelConnMu.Lock", "sourceConnMu.Lock", "CreateDataForwarder", "sourceConnMu.Unlock", "CreateDataForwarder", "tunnelConnMu.Unlock", "sourceConnMu.RLock", "sourceConnMu.RUnlock", "b.CopyWithControl", "sourceConnMu.RLock", "sourceConnMu.RUnlock", "b.CopyWithControl"]
 def CopyWithControl : List String := ["counter.Add", "src.Read", "waitLimiterN", "dst.Write", "counter.Add", "counter.Add"]
 def dynamicSourceWriter_Write : List String := ["sourceConnMu.RLock", "sourceConnMu.RUnlock", "sourceForwarder.Write"]
